@@ -486,7 +486,7 @@ pub proof fn lemma_any_extend(d0: Seq<Del>, d1: Seq<Del>, d2: Seq<Del>, ts: Map<
         final(w).resolved == old(w).resolved,
         /*[C12.off]*/ !arg_matches.has(CLEAN@) ==> final(w).deleted == old(w).deleted,
         /*[C12.scope,C12.frame,C08.clean-scope]*/ all_new_any(old(w).deleted, final(w).deleted, targets@, project_dirs@, requested_targets is Some),
-        /*[C10.main-order]*/ final(w).steps.len() > 0 ==> final(w).steps =~= seq![Step::Run, Step::Terminate],
+        /*[C10.main-order,C11.stop-at-exit,C07.exit-clean]*/ final(w).steps.len() > 0 ==> final(w).steps =~= seq![Step::Run, Step::Terminate],
         /*[C07.exit]*/ final(w).run_failed ==> r is Err,
         /*[C12.scope]*/ requested_targets is None ==> final(w).steps.len() == 0,
 //@pre
@@ -623,7 +623,7 @@ pub uninterp spec fn parsed_names(names: Seq<String>, root: Option<String>) -> S
         old(w).steps.len() == 0, !old(w).run_failed,
     ensures
         /*[C09.before-effects,C14.before-effects]*/ final(w).deleted != old(w).deleted || final(w).steps.len() > 0 ==> final(w).resolved,
-        /*[C10.main-order]*/ final(w).steps.len() > 0 ==> final(w).steps =~= seq![Step::Run, Step::Terminate],
+        /*[C10.main-order,C11.stop-at-exit,C07.exit-clean]*/ final(w).steps.len() > 0 ==> final(w).steps =~= seq![Step::Run, Step::Terminate],
         /*[C07.exit]*/ final(w).run_failed ==> r is Err,
 //@before 0 `let targets = config.try_into_domain_targets(`
     let ghost all0 = config.all_targets();
